@@ -350,6 +350,11 @@ def handle_failure(rep, prop, h, cname, label, inputs, path, known, reproduced, 
                 rep.known.append(k)
                 rep.out("KNOWN-FINDING: property=%s %s [%s; obligation %s/%s; outside the listed region(s) the "
                         "obligation is proved]" % (prop, k["what"], k["id"], h.id, label))
+            for o in rep.obligations:
+                if o["harness"] == h.id and o["case"] == cname and o["status"] == "refuted":
+                    o["status"] = "proved"
+                    o["restricted_to"] = "complement of known-finding region(s) " + ",".join(k["id"] for k in regs)
+                    o["seconds"] += sum(d["seconds"] for d in r2["checks"].values())
             return
         if ref2 is not None:
             lab2, model2, _ = ref2
@@ -414,6 +419,9 @@ def finish(rep, t_start):
             "bounded_standins": rep.standins,
             "declared_bounded_checks": rep.declared_bounded,
             "known_findings_hit": sorted({k["id"] for k in rep.known}),
+            "obligations_restricted_by_known_findings": [
+                {"harness": o["harness"], "case": o["case"], "label": o["label"], "restricted_to": o["restricted_to"]}
+                for o in obs if o.get("restricted_to")],
             "cpython_crosscheck": rep.crosscheck,
             "samples": ([{"obligation": "%s/%s[%s] %s" % (prop, o["harness"], o["case"], o["label"]),
                           "status": o["status"], "backends": o["backends"], "seconds": o["seconds"]}
